@@ -60,7 +60,7 @@ Ltac solve_in := vm_compute; repeat (first [left; reflexivity | right]).
 Definition w_f11a := {| c_src := SDataset; c_tr := TJs; c_snk := KDevNull; c_trig := GCron; c_jt := JIncr; c_h := HLog; c_kill := false |}.
 Definition w_f11b := {| c_src := SDataset; c_tr := TNone; c_snk := KMissing; c_trig := GOnChange; c_jt := JIncr; c_h := HLog; c_kill := false |}.
 Definition w_f11b' := {| c_src := SDataset; c_tr := TNone; c_snk := KDevNull; c_trig := GOnChange; c_jt := JIncr; c_h := HBad; c_kill := false |}.
-Definition w_f11c := {| c_src := SDataset; c_tr := TJsPar; c_snk := KDevNull; c_trig := GCron; c_jt := JIncr; c_h := HNone; c_kill := false |}.
+Definition w_f11c := {| c_src := SDataset; c_tr := TPanic; c_snk := KDevNull; c_trig := GCron; c_jt := JIncr; c_h := HNone; c_kill := false |}.
 
 Lemma refuted_wrapper_loop :
   In w_f11a all_cfgs /\ accepted jcurrent w_f11a = true /\ fst (sync jcurrent w_f11a) = SDiverge
